@@ -309,13 +309,19 @@ func (in *inst) apply(o op) (bool, string, string) {
 	case opDeref:
 		// the GC pattern: drop the oldest pinned root once a newer one is pinned. Copies that still
 		// read through older roots are released first (they would legitimately lose their nodes).
-		if len(in.refs) < 2 || in.refs[0] == in.comRoot {
+		// A root pinned twice (two commits with the same content, or a change that was undone) is counted twice: one
+		// release leaves it pinned, so it may be released even while it is the current root.
+		if len(in.refs) < 2 {
 			return false, "", ""
 		}
+		heldAgain := false
 		for _, r := range in.refs[1:] {
 			if r == in.refs[0] {
-				return false, "", ""
+				heldAgain = true
 			}
+		}
+		if in.refs[0] == in.comRoot && !heldAgain {
+			return false, "", ""
 		}
 		in.copies = nil
 		in.db.Dereference(in.refs[0])
